@@ -1291,6 +1291,11 @@ func (g *Generator) generateServiceInterface(service *parser.Service) string {
 		contents += g.generateMethodSignature(method)
 		contents += tabtab + "pass\n\n"
 	}
+	if len(service.Methods) == 0 {
+		// A class needs a body even if the service declares no methods of
+		// its own (e.g. it only extends another service).
+		contents += tab + "pass\n\n"
+	}
 
 	return contents
 }
